@@ -19,6 +19,9 @@
 #include "llvm/Support/JSON.h"
 #include "llvm/Support/raw_ostream.h"
 #include "llvm/Support/FileSystem.h"
+#include "llvm/Support/MemoryBuffer.h"
+#include "llvm/Bitcode/BitcodeWriter.h"
+#include "llvm/ADT/SmallVector.h"
 #include <map>
 #include <set>
 #include <string>
@@ -485,7 +488,65 @@ static void emitFunction(json::OStream &J, const Function &F) {
   J.objectEnd();
 }
 
+// irx --mark <anchors.txt> <in.bc> <out.bc>
+// Inlining policy for the *normalised* plain view: every function named in anchors.txt (one C name per line; a ".N" suffix added by
+// the linker for same-named statics is ignored), every function with external linkage, every address-taken function and every
+// function on a call-graph cycle keeps its identity (noinline); every other private function is marked alwaysinline, so that
+// after `opt -passes=always-inline,globaldce` helper functions that no rule names have disappeared into their callers.
+static int markMain(int argc, char **argv) {
+  if (argc != 5) { errs() << "usage: irx --mark <anchors.txt> <in.bc> <out.bc>\n"; return 2; }
+  std::set<std::string> anchors;
+  {
+    auto BufOrErr = MemoryBuffer::getFile(argv[2]);
+    if (!BufOrErr) { errs() << "cannot read " << argv[2] << "\n"; return 2; }
+    StringRef Txt = (*BufOrErr)->getBuffer();
+    SmallVector<StringRef, 256> Lines;
+    Txt.split(Lines, '\n', -1, false);
+    for (StringRef L : Lines) anchors.insert(L.trim().str());
+  }
+  LLVMContext Ctx;
+  SMDiagnostic Err;
+  std::unique_ptr<Module> M = parseIRFile(argv[3], Err, Ctx);
+  if (!M) { Err.print("irx", errs()); return 2; }
+  // direct call graph for cycle detection
+  std::map<Function *, std::set<Function *>> callees;
+  std::set<Function *> addrTaken;
+  for (Function &F : *M) {
+    if (F.isDeclaration()) continue;
+    if (F.hasAddressTaken()) addrTaken.insert(&F);
+    for (BasicBlock &BB : F)
+      for (Instruction &I : BB)
+        if (auto *CB = dyn_cast<CallBase>(&I))
+          if (Function *C = CB->getCalledFunction())
+            if (!C->isDeclaration()) callees[&F].insert(C);
+  }
+  auto reaches = [&](Function *From, Function *To) {
+    std::set<Function *> seen; std::vector<Function *> work(callees[From].begin(), callees[From].end());
+    while (!work.empty()) { Function *X = work.back(); work.pop_back(); if (X == To) return true; if (!seen.insert(X).second) continue;
+      for (Function *Y : callees[X]) work.push_back(Y); }
+    return false;
+  };
+  unsigned kept = 0, inl = 0;
+  for (Function &F : *M) {
+    if (F.isDeclaration()) continue;
+    std::string base = F.getName().str();
+    size_t dot = base.find('.');
+    if (dot != std::string::npos) base = base.substr(0, dot);
+    bool keep = !F.hasLocalLinkage() || anchors.count(base) || addrTaken.count(&F) || reaches(&F, &F);
+    F.removeFnAttr(Attribute::OptimizeNone);
+    if (keep) { F.removeFnAttr(Attribute::AlwaysInline); F.addFnAttr(Attribute::NoInline); ++kept; }
+    else { F.removeFnAttr(Attribute::NoInline); F.addFnAttr(Attribute::AlwaysInline); ++inl; }
+  }
+  std::error_code EC;
+  raw_fd_ostream OS(argv[4], EC, sys::fs::OF_None);
+  if (EC) { errs() << "cannot open " << argv[4] << "\n"; return 2; }
+  WriteBitcodeToFile(*M, OS);
+  outs() << "kept " << kept << " inlined " << inl << "\n";
+  return 0;
+}
+
 int main(int argc, char **argv) {
+  if (argc >= 2 && std::string(argv[1]) == "--mark") return markMain(argc, argv);
   if (argc != 3) {
     errs() << "usage: irx <in.bc|in.ll> <out.json>\n";
     return 2;
